@@ -434,6 +434,11 @@ SUBS = {'model_replace': model_replace, 'pmap_evaluator': pmap_evaluator, 'batch
 TIMEOUTS = {k: 900 for k in SUBS}
 
 
+# sub-spaces re-executed under other interpreter configurations (mc.core.CONFIGS): {configuration: {sub-space: stride}}
+# quick tier: every stride-th planned case, thorough tier: all planned cases
+CONFIG_PASSES = {'x64': {'batch_level': 8, 'monoid': 5}}
+
+
 def plan(ctx):
   th = ctx.tier == 'thorough'
   ctx.rule = ('batch level: all example sequences of length <=%d over a 5-example pool per family, as one batch, x '
